@@ -115,6 +115,9 @@ OPT_TABLE = {
     "ign_reason": ["-", "-", "sc=1,ss=1,ig=1"],
     "gi::inherit": ["-", "-", "sc=1,ss=1,ig=1", "-"],
     "gi::unignored": ["-", "-", "sc=1,ss=1,ig=1", "ig=0"],
+    "gi::counted": ["-", "-", "sc=1,ss=1,ig=1", "sc=2"],
+    "gi::inner::deep": ["-", "-", "sc=1,ss=1,ig=1", "ss=3,th=1.", "-"],
+    "gi::inner::deep_unignored": ["-", "-", "sc=1,ss=1,ig=1", "ss=3,th=1.", "sc=1,ig=0"],
     "io::read": ["-", "-", "-", "-"],        # the group on platform::linux::io (no benchmarks below it) does not enclose it
     "g1::inherit": ["-", "-", G1, "-"],
     "g1::size5": ["-", "-", G1, "ss=5"],
@@ -300,7 +303,11 @@ def opt_impl_runner(ctx):
                     if any(r[3] != units for r in o["rows"]):
                         units = "mixed"
                     ents.append(f"{path}=R/{rows}/{units or '-'}/{calls.get(path, 0)}")
-            lines.append("O " + " ".join(ents) + f" #P {par} #B {B_TOKENS}")
+            # the terse listing under the same flags, variables and builder calls
+            largs = ["--list", "--format", "terse"] + [a for a in args if a != "--bench"]
+            rc2, out2, err2 = E.run(hbin, largs, dict(env, NEXTEST="1"), timeout=60, ncpus=ncpus)
+            listed = sorted(E.terse_cases(out2)) if rc2 == 0 else [f"listing-failed-rc={rc2}"]
+            lines.append("O " + " ".join(ents) + " #L " + " ".join(listed) + f" #P {par} #B {B_TOKENS}")
         return lines
     return runner
 
